@@ -9,9 +9,16 @@ source changes Gen.lean and the proofs below stop checking (reported as a broken
 `pointsSimilar`: the index loop of the source is the structural recursion of the model.
 `ringSimilar`: `n := len(a) - 1; if n < 1` is `len ≤ 1` (also for `len = 0`, where Go's `n` is −1
 and Lean's truncated subtraction gives 0: same branch).
+`MultiLineString / Polygon / MultiPolygon / GeometryCollection .Similar` (phase 4): the index
+bookkeeping of the source — slice of unmatched indices filled with 0..n-1, inner `range` loop with
+position `ii` and index `i`, removal of position `ii` by `indices[0:ii]` / `append(indices[0:ii],
+indices[ii+1:len(indices)]...)`, `break`, `matched` flag — is the model's `matchMembers`
+(`loops_eq_matchMembers`: the unmatched members are the members at the unmatched indices).
 -/
 set_option linter.unusedSimpArgs false
+set_option linter.unusedVariables false
 namespace GeomV.C15
+open GeomV
 
 /-- `func similar` as it is in the source now = the model's `similar` -/
 theorem C15_tie_similar : Gen.similar = similar := rfl
@@ -60,4 +67,193 @@ theorem C15_tie_LineString (ps : List P) (g : RGeom) (e : Rat) : Gen.simLineStri
   cases g <;> simp [Gen.simLineString, sim, C15_tie_pointsSimilar]
 theorem C15_tie_Bounds (a b : P) (g : RGeom) (e : Rat) : Gen.simBounds a b g e = sim (.bounds a b) e g := by
   cases g <;> rfl
+
+/-! ### the four greedy member-matching methods (phase 4) -/
+
+/-- the removal written in the source (`if ii == len(indices)-1 { indices[0:ii] } else
+{ append(indices[0:ii], indices[ii+1:len(indices)]...) }`) removes position `ii` -/
+def RemovesAt (rem : List Nat → Nat → List Nat) : Prop :=
+  ∀ indices ii, ii < indices.length → rem indices ii = indices.eraseIdx ii
+
+theorem removal_in_source : RemovesAt fun indices ii =>
+    if decide (ii = indices.length - 1) then Gen.slice indices 0 ii
+      else Gen.slice indices 0 ii ++ Gen.slice indices (ii + 1) indices.length := by
+  intro indices ii h
+  unfold Gen.slice
+  rw [List.eraseIdx_eq_take_drop_succ]
+  by_cases hl : ii = indices.length - 1
+  · have : indices.drop (ii + 1) = [] := by
+      apply List.drop_eq_nil_of_le; omega
+    rw [this]
+    simp [← hl]
+  · have : (indices.drop (ii + 1)).take (indices.length - (ii + 1)) = indices.drop (ii + 1) := by
+      apply List.take_of_length_le; simp
+    simp [hl, this]
+
+/-- the members still unmatched = the members at the unmatched indices -/
+def valsAt {β : Type} (ys : List β) (indices : List Nat) : List β := indices.filterMap fun i => ys[i]?
+
+theorem innerGo_spec {β : Type} (ys : List β) (p : β → Bool) (pre rest : List Nat) :
+    (Gen.innerGo (fun i => match ys[i]? with | some x => p x | none => false)
+        (fun ii => (pre ++ rest).eraseIdx ii) pre.length rest).map (valsAt ys)
+      = (removeFirst p (valsAt ys rest)).map (valsAt ys pre ++ ·) := by
+  induction rest generalizing pre with
+  | nil => simp [Gen.innerGo, valsAt, removeFirst]
+  | cons i rest ih =>
+    unfold Gen.innerGo
+    cases hx : ys[i]? with
+    | none =>
+      have := ih (pre ++ [i])
+      simp only [List.length_append, List.length_cons, List.length_nil, List.append_assoc,
+        List.cons_append, List.nil_append, Nat.zero_add] at this
+      simp only [Bool.false_eq_true, if_false]
+      rw [this]
+      simp [valsAt, hx]
+    | some x =>
+      by_cases hp : p x = true
+      · simp only [hp, if_true, Option.map_some]
+        have e1 : (pre ++ i :: rest).eraseIdx pre.length = pre ++ rest := by
+          rw [List.eraseIdx_append_of_length_le (Nat.le_refl _)]; simp
+        rw [e1]
+        simp [valsAt, hx, removeFirst, hp]
+      · have hp' : p x = false := by simpa using hp
+        have := ih (pre ++ [i])
+        simp only [List.length_append, List.length_cons, List.length_nil, List.append_assoc,
+          List.cons_append, List.nil_append, Nat.zero_add] at this
+        simp only [hp', Bool.false_eq_true, if_false]
+        rw [this]
+        simp [valsAt, hx, removeFirst, hp']
+        cases removeFirst p (List.filterMap (fun i => ys[i]?) rest) <;> simp
+
+theorem innerGo_congr (cond cond' : Nat → Bool) (rem rem' : Nat → List Nat) (k : Nat) (rest : List Nat)
+    (hc : ∀ i, cond i = cond' i)
+    (h : ∀ ii, k ≤ ii → ii < k + rest.length → rem ii = rem' ii) :
+    Gen.innerGo cond rem k rest = Gen.innerGo cond' rem' k rest := by
+  induction rest generalizing k with
+  | nil => rfl
+  | cons i rest ih =>
+    unfold Gen.innerGo
+    rw [hc i]
+    split
+    · rw [h k (Nat.le_refl _) (by simp)]
+    · apply ih; intro ii h1 h2; apply h ii (by omega) (by simp; omega)
+
+/-- **the two nested loops of the source = the model's greedy matcher** on the members at the
+unmatched indices: `cond l i` reads member `i` of the argument and applies the member predicate,
+`rem` removes the matched position -/
+theorem loops_eq_greedy {α β : Type} (pred : α → β → Bool) (ys : List β)
+    (cond : α → Nat → Bool) (rem : List Nat → Nat → List Nat)
+    (hcond : ∀ l i, cond l i = match ys[i]? with | some x => pred l x | none => false)
+    (hrem : RemovesAt rem) (ml : List α) (indices : List Nat) :
+    Gen.outerLoop (fun l indices => Gen.innerLoop indices (cond l) (rem indices)) ml indices
+      = greedy (ml.map fun l => pred l) (valsAt ys indices) := by
+  induction ml generalizing indices with
+  | nil => simp [Gen.outerLoop, greedy]
+  | cons l ls ih =>
+    simp only [Gen.outerLoop, List.map_cons, greedy]
+    have e : Gen.innerLoop indices (cond l) (rem indices)
+        = Gen.innerGo (fun i => match ys[i]? with | some x => pred l x | none => false)
+          (fun ii => ([] ++ indices).eraseIdx ii) ([] : List Nat).length indices := by
+      unfold Gen.innerLoop
+      apply innerGo_congr
+      · exact hcond l
+      · intro ii _ h2
+        simp only [List.nil_append]
+        exact hrem indices ii (by simpa using h2)
+    have s := innerGo_spec ys (pred l) [] indices
+    rw [← e] at s
+    simp only [valsAt, List.filterMap_nil, List.nil_append] at s
+    cases hi : Gen.innerLoop indices (cond l) (rem indices) with
+    | none =>
+      rw [hi] at s
+      cases hr : removeFirst (pred l) (valsAt ys indices) with
+      | none => rfl
+      | some r => simp [valsAt] at hr; rw [hr] at s; simp at s
+    | some ind' =>
+      rw [hi] at s
+      cases hr : removeFirst (pred l) (valsAt ys indices) with
+      | none => simp [valsAt] at hr; rw [hr] at s; simp at s
+      | some r =>
+        simp only [valsAt] at hr; rw [hr] at s
+        simp only [Option.map_some, Option.some.injEq] at s
+        show Gen.outerLoop _ ls ind' = greedy _ r
+        rw [ih ind']
+        rw [s]
+
+theorem valsAt_range' {β : Type} (ys : List β) (n k : Nat) (h : k + n = ys.length) :
+    List.filterMap (fun i => ys[i]?) (List.range' k n) = ys.drop k := by
+  induction n generalizing k with
+  | zero => simp at h; simp [h]
+  | succ n ih =>
+    have hk : k < ys.length := by omega
+    rw [List.range'_succ, List.filterMap_cons, List.getElem?_eq_getElem hk, ih (k + 1) (by omega)]
+    exact (List.drop_eq_getElem_cons hk).symm
+
+/-- `indices := make([]int, len(ys)); for i := range ys { indices[i] = i }`: all members unmatched -/
+theorem valsAt_range {β : Type} (ys : List β) : valsAt ys (List.range ys.length) = ys := by
+  unfold valsAt
+  rw [List.range_eq_range', valsAt_range' ys ys.length 0 (by simp)]
+  simp
+
+/-- count check + the two loops = `matchMembers` -/
+theorem loops_eq_matchMembers {α β : Type} (pred : α → β → Bool) (ml : List α) (ys : List β)
+    (cond : α → Nat → Bool) (rem : List Nat → Nat → List Nat)
+    (hcond : ∀ l i, cond l i = match ys[i]? with | some x => pred l x | none => false)
+    (hrem : RemovesAt rem) :
+    (if decide (ml.length ≠ ys.length) then false
+      else Gen.outerLoop (fun l indices => Gen.innerLoop indices (cond l) (rem indices)) ml (List.range ys.length))
+      = matchMembers (ml.map fun l => pred l) ys := by
+  rw [loops_eq_greedy pred ys cond rem hcond hrem, valsAt_range]
+  unfold matchMembers
+  by_cases h : ml.length = ys.length <;> simp [h]
+
+/-- `func (p Polygon) Similar` as it is in the source now = the model -/
+theorem C15_tie_Polygon (rs : List (List P)) (g : RGeom) (e : Rat) :
+    Gen.simPolygon rs g e = sim (.polygon rs) e g := by
+  cases g <;> try rfl
+  rename_i rs'
+  unfold Gen.simPolygon
+  simp only [sim, polygonSimilar]
+  rw [loops_eq_matchMembers (fun r r' => Gen.ringSimilar r r' e) rs rs' _ _
+    (by intro l i; cases rs'[i]? <;> rfl) removal_in_source, C15_tie_ringSimilar]
+
+/-- `func (ml MultiLineString) Similar` as it is in the source now = the model -/
+theorem C15_tie_MultiLineString (ls : List (List P)) (g : RGeom) (e : Rat) :
+    Gen.simMultiLineString ls g e = sim (.multiLineString ls) e g := by
+  cases g <;> try rfl
+  rename_i ls'
+  unfold Gen.simMultiLineString
+  simp only [sim, mlsSimilar]
+  rw [loops_eq_matchMembers (fun l l' => Gen.simLineString l (.lineString l') e) ls ls' _ _
+    (by intro l i; cases ls'[i]? <;> rfl) removal_in_source]
+  simp only [C15_tie_LineString, sim]
+
+/-- `func (mp MultiPolygon) Similar` as it is in the source now = the model -/
+theorem C15_tie_MultiPolygon (ps : List (List (List P))) (g : RGeom) (e : Rat) :
+    Gen.simMultiPolygon ps g e = sim (.multiPolygon ps) e g := by
+  cases g <;> try rfl
+  rename_i ps'
+  unfold Gen.simMultiPolygon
+  simp only [sim, mpgSimilar]
+  rw [loops_eq_matchMembers (fun p p' => Gen.simPolygon p (.polygon p') e) ps ps' _ _
+    (by intro l i; cases ps'[i]? <;> rfl) removal_in_source]
+  simp only [C15_tie_Polygon, sim]
+
+theorem simL_eq_map' (gs : List RGeom) (e : Rat) : simL gs e = gs.map fun g => sim g e := by
+  induction gs with
+  | nil => rfl
+  | cons g gs ih => simp [simL, ih]
+
+/-- `func (gc GeometryCollection) Similar` as it is in the source now = the model; the dynamic
+dispatch `gc1.Similar(gc2[i], tolerance)` on the interface value `gc1` is the model's `sim` (whose
+eight branches are the eight regenerated methods, by the other tie lemmas) -/
+theorem C15_tie_GeometryCollection (gs : List RGeom) (g : RGeom) (e : Rat) :
+    Gen.simCollection (fun a b t => sim a t b) gs g e = sim (.collection gs) e g := by
+  cases g <;> try rfl
+  rename_i gs'
+  unfold Gen.simCollection
+  simp only [sim, simL_eq_map']
+  rw [loops_eq_matchMembers (fun a b => sim a e b) gs gs' _ _
+    (by intro l i; cases gs'[i]? <;> rfl) removal_in_source]
+
 end GeomV.C15
